@@ -94,6 +94,8 @@ type Spec struct {
 	PanicIsOK    bool              `json:"panic_is_ok"` // uncaught panics are not violations
 	Params       map[string]int    `json:"-"`
 	DepthIsViolation bool          `json:"depth_is_violation"` // exceeding maxdepth = unbounded recursion = violation
+	MaxSeconds   int               `json:"max_seconds"` // wall-clock budget of one harness run (0 = default)
+	AllocLimit   int64             `json:"alloc_limit"` // a make() whose symbolic size can exceed this is a violation
 	ForceLower   bool              `json:"force_lower"`
 	NoLower      bool              `json:"no_lower"` // keep Int theory instead of lowering bounded integers to bit-vectors
 	ForkIndex    bool              `json:"fork_index"` // concretise symbolic indices by forking (keeps x*TABLE[i] linear)
@@ -118,6 +120,7 @@ type Shared struct {
 	Known      map[string]bool // known finding ids (status known)
 	seenViol   map[string]bool
 	dupViol    int
+	deadline   time.Time
 	InitNotes  []string
 }
 
@@ -178,6 +181,7 @@ type Machine struct {
 	apiFns         map[*ssa.Function]bool
 	lw             *Lowerer
 	lowerFail      int
+	panicDetail    string
 	addrSeq        uint64
 	addrs          map[*Cell]uint64
 	deferOwner     []*frame
@@ -228,12 +232,20 @@ func NewShared(prog *Program, spec *Spec) *Shared {
 	sh.Stats.SolverTime = map[string]time.Duration{}
 	sh.Stats.SolverCalls = map[string]int64{}
 	sh.work = []Prefix{nil}
+	if spec.MaxSeconds > 0 {
+		sh.deadline = time.Now().Add(time.Duration(spec.MaxSeconds) * time.Second)
+	}
 	return sh
 }
 
 func (sh *Shared) take() (Prefix, bool) {
 	sh.mu.Lock()
 	defer sh.mu.Unlock()
+	if !sh.deadline.IsZero() && time.Now().After(sh.deadline) && !sh.stop {
+		sh.Incon["time budget of the harness exhausted"]++
+		sh.stop = true
+		sh.cond.Broadcast()
+	}
 	for {
 		if sh.stop {
 			return nil, false
@@ -379,7 +391,9 @@ func (m *Machine) runPath(entry *ssa.Function, prefix Prefix) {
 					// uncaught panic in the harness
 					end = &pathEnd{endDone, ""}
 					if !m.Spec.PanicIsOK {
-						m.reportViolation("panic: "+x.kind+": "+x.msg, nil)
+						m.panicDetail = x.kind + ": " + x.msg
+						m.reportViolation("panic: "+x.kind, nil)
+						m.panicDetail = ""
 					}
 				default:
 					panic(r)
